@@ -695,7 +695,21 @@ def runSpec (c : CaseSt) (t : List String) : Option String :=
        if ast.isNone && (ctxFromText asciiLowerStr t.toList target).isSome then some "- FLAGS=text-fallback-on-valid"
        else some "-"
      | _ => some "-")
-  | ["imported", _] => some ("-" ++ flagStr (if hasImportCycle st then ["import-cycle"] else []))
+  | ["imported", p] =>
+    -- the property's reading: the fixture names `p` provides through at least one import edge
+    -- (star import / pytest_plugins: everything the target provides; explicit: the listed names)
+    let f := pathOf p
+    let es := specEdges st
+    let fuel := es.length + 1
+    let names := ((st.defs.filter (fun d => es.any (fun e =>
+      e.src == f && e.exports d.name && Spec.provides es fuel e.dst d))).map (·.name)).eraseDups
+    -- explicit imports are judged by name only in the implementation (E1): the comparison with the
+    -- closure is meaningful where every edge reachable from `p` is a star import / plugin edge
+    let reach := (List.range fuel).foldl (fun (acc : List Path) _ =>
+      (acc ++ (es.filter (fun e => acc.contains e.src)).map (·.dst)).eraseDups) [f]
+    let explicit := es.any (fun e => reach.contains e.src && e.names.isSome)
+    some (sorted names ++ flagStr ((if hasImportCycleE es then ["import-cycle"] else []) ++
+      (if explicit then ["explicit-import"] else [])))
   | ["refs", _, _, n] =>
     let us := st.allUsages.filter (·.name == n)
     let es := specEdges st
